@@ -380,3 +380,112 @@ theorem httpRange_shape (rng : Option Str) (sl : Slice) (h : httpRange rng = .ok
       · simp at h
 
 end Aio.C15
+
+namespace Aio.C15
+open Aio
+
+theorem sendLoop_take (cs : Nat) (hcs : 0 < cs) :
+    ∀ (fuel : Nat) (file : Bytes) (count : Nat), count < fuel →
+      sendLoop cs fuel file count = file.take count := by
+  intro fuel
+  induction fuel with
+  | zero => intro file count h; omega
+  | succ fuel ih =>
+    intro file count h
+    simp only [sendLoop]
+    have hlen : (file.take (min cs count)).length = min (min cs count) file.length := List.length_take
+    split
+    · next hemp =>
+      have h0 : (file.take (min cs count)).length = 0 := by
+        have := List.isEmpty_iff.mp hemp
+        rw [this]; rfl
+      rw [hlen] at h0
+      by_cases hc : count = 0
+      · subst hc; simp
+      · have : file.length = 0 := by omega
+        have : file = [] := List.eq_nil_of_length_eq_zero this
+        subst this; simp
+    · split
+      · next hne hle =>
+        rw [hlen] at hle
+        have : min cs count = count := by omega
+        rw [this]
+      · next hne hgt =>
+        rw [hlen] at hgt
+        have hk : 0 < (file.take (min cs count)).length := by
+          cases hx : file.take (min cs count) with
+          | nil => simp [hx] at hne
+          | cons a t => simp
+        rw [ih _ _ (by omega)]
+        rw [hlen]
+        by_cases hm : min cs count ≤ file.length
+        · have : min (min cs count) file.length = min cs count := by omega
+          rw [this]
+          have hc : count = min cs count + (count - min cs count) := by omega
+          conv => rhs; rw [hc, List.take_add]
+        · have h1 : min (min cs count) file.length = file.length := by omega
+          rw [h1]
+          have h2 : file.take (min cs count) = file := List.take_of_length_le (by omega)
+          have h3 : file.take count = file := List.take_of_length_le (by omega)
+          rw [h2, h3]; simp
+
+/-- every plan `_prepare_open_file` can produce -/
+theorem prepare_cases (isHead iro : Bool) (rng : Option Str) (size : Nat) :
+    prepareOpenFile isHead iro rng size = fullPlan isHead size ∨
+    prepareOpenFile isHead iro rng size = unsatPlan size ∨
+    ∃ first last, first ≤ last ∧ last < size ∧
+      prepareOpenFile isHead iro rng size = partialPlan isHead size first last := by
+  cases iro with
+  | false => left; exact prepare_stale _ _ _
+  | true =>
+    cases hr : httpRange rng with
+    | error e => cases e; right; left; exact prepare_error _ _ _ hr
+    | ok sl =>
+      rcases httpRange_shape rng sl hr with ⟨rfl, _⟩ | ⟨n, rfl⟩ | ⟨f, rfl⟩ | ⟨f, l, hfl, rfl⟩
+      · left; exact prepare_no_range _ _ _
+      · right
+        by_cases hn : 0 < n
+        · rw [prepare_suffix _ _ _ _ hn hr]
+          by_cases hs : size = 0
+          · left; simp [hs]
+          · right; simp only [hs, if_false]; exact ⟨_, _, by omega, by omega, rfl⟩
+        · have : n = 0 := by omega
+          subst this
+          rw [prepare_suffix_zero _ _ _ hr]
+          by_cases hs : size = 0
+          · left; simp [hs]
+          · right; simp only [hs, if_false]; exact ⟨_, _, by omega, by omega, rfl⟩
+      · right
+        rw [prepare_fromOn _ _ _ _ hr]
+        by_cases hlt : f < size
+        · right; simp only [hlt, if_true]; exact ⟨_, _, by omega, by omega, rfl⟩
+        · left; simp [hlt]
+      · right
+        rw [prepare_fromTo _ _ _ _ _ hfl hr]
+        by_cases hlt : f < size
+        · right; simp only [hlt, if_true]; exact ⟨_, _, by omega, by omega, rfl⟩
+        · left; simp [hlt]
+
+theorem sendBytes_partial (cs : Nat) (hcs : 0 < cs) (content : Bytes) (first last : Nat) :
+    sendBytes cs content (partialPlan false content.length first last) =
+      (content.drop first).take (last - first + 1) := by
+  simp only [sendBytes, partialPlan]
+  simp
+  exact sendLoop_take cs hcs _ _ _ (by omega)
+
+theorem sendBytes_full (cs : Nat) (hcs : 0 < cs) (content : Bytes) :
+    sendBytes cs content (fullPlan false content.length) = content := by
+  simp only [sendBytes, fullPlan]
+  by_cases h0 : content.length = 0
+  · have : content = [] := List.eq_nil_of_length_eq_zero h0
+    subst this; simp
+  · simp [h0]
+    rw [sendLoop_take cs hcs _ _ _ (by omega)]
+    simp
+
+theorem sendBytes_head (cs : Nat) (content : Bytes) (iro : Bool) (rng : Option Str) :
+    sendBytes cs content (prepareOpenFile true iro rng content.length) = [] := by
+  rcases prepare_cases true iro rng content.length with h | h | ⟨f, l, _, _, h⟩ <;>
+    rw [h] <;> simp [sendBytes, fullPlan, unsatPlan, partialPlan]
+
+end Aio.C15
